@@ -73,9 +73,9 @@ def txInitProposals (s : Sys) (t : Tx) : Plan :=
           [.tx t.index t.version (.setProposals (t.changes.map fun c => (c.1, t.index)))] }
     else
       match s.tx? t.rollbackIndex with
-      | none => { effects := [.tx t.index t.version (.initFailed .notFound)] }
+      | none => { effects := [.tx t.index t.version (.initFailed .notFound)], requeue := some (.tx (t.index + 1)) }
       | some target =>
-        if target.isRollback then { effects := [.tx t.index t.version (.initFailed .forbidden)] }
+        if target.isRollback then { effects := [.tx t.index t.version (.initFailed .forbidden)], requeue := some (.tx (t.index + 1)) }
         else
           { effects := initCreatesRollback s t target ++
               [.tx t.index t.version (.setProposals (target.changes.map fun c => (c.1, t.index)))] }
